@@ -321,3 +321,51 @@ package corerad
 //@   ensures E4 [C12]: forall(k, 0, len(result), result[k].Details == "" && (result[k].Field == "hop_limit" || result[k].Field == "managed_configuration" || result[k].Field == "other_configuration" || result[k].Field == "reachable_time" || result[k].Field == "retransmit_timer"))
 //@   opt safety [C12]
 //@   opt frame [C12]
+
+// ---- pair-wise prefix check (C12) ---------------------------------------------------
+
+//@ func prefixStr
+//@   requires P1: p != nil
+//@   ensures E1 [C12,C17]: result == cidrStrOf(p.Prefix, p.PrefixLength)
+//@   opt safety [C12]
+//@ func routeStr
+//@   requires P1: r != nil
+//@   ensures E1 [C12,C17]: result == cidrStrOf(r.Prefix, r.PrefixLength)
+//@   opt safety [C12]
+//@ func cidrStr
+//@   ensures E1 [C12,C17,C18]: result == cidrStrOf(prefix, length)
+//@   opt trusted formats prefix/length with netip.PrefixFrom(...).String(); the label text is modelled as cidrStrOf
+
+//@ macro piMatch(x, y) = x.Prefix == y.Prefix && x.PrefixLength == y.PrefixLength
+//@ macro piProblem(p, x, y) = (p.Field == "prefix_information_preferred_lifetime" && x.PreferredLifetime != y.PreferredLifetime) || (p.Field == "prefix_information_valid_lifetime" && x.ValidLifetime != y.ValidLifetime)
+//@ macro hasProblem(ps, f, d) = exists(kp, 0, len(ps), ps[kp].Field == f && ps[kp].Details == d)
+
+// Proved: no report when either side has no prefix option; every report is
+// witnessed by a pair of matching prefixes whose preferred/valid lifetimes
+// really differ, labelled with that prefix. (That every differing pair is
+// reported is not proved deductively; see the bounded stand-in in /verif.)
+//@ func checkPrefixes
+//@   requires P1: optsOK(want) && optsOK(got)
+//@   assigns new heap(corerad.problems), new mem(corerad.problem), new mem(*ndp.MTU)
+//@   loop 1 invariant Q0 [C12]: 0 <= rangeindex1 + 1 && rangeindex1 + 1 <= len(piA) && forall(i, 0, len(piA), piA[i] != nil) && forall(j, 0, len(piB), piB[j] != nil)
+//@   loop 1 invariant Q1 [C12]: forall(k, 0, len(ps), exists(i, 0, len(piA), exists(j, 0, len(piB), piMatch(piA[i], piB[j]) && piProblem(ps[k], piA[i], piB[j]) && ps[k].Details == cidrStrOf(piA[i].Prefix, piA[i].PrefixLength))))
+//@   loop 2 invariant Q3 [C12]: 0 <= rangeindex2 + 1 && rangeindex2 + 1 <= len(piB) && rangeindex1 + 1 < len(piA) && a == piA[rangeindex1 + 1]
+//@   loop 2 invariant Q5 [C12]: forall(k, 0, len(ps), exists(i, 0, len(piA), exists(j, 0, len(piB), piMatch(piA[i], piB[j]) && piProblem(ps[k], piA[i], piB[j]) && ps[k].Details == cidrStrOf(piA[i].Prefix, piA[i].PrefixLength))))
+//@   ensures E1 [C12]: countTag(arr(want), len(want), tagOf("*ndp.PrefixInformation")) == 0 || countTag(arr(got), len(got), tagOf("*ndp.PrefixInformation")) == 0 ==> len(result) == 0
+//@   ensures E2 [C12]: forall(k, 0, len(result), exists(i, 0, len(want), exists(j, 0, len(got), isType(want[i], "*ndp.PrefixInformation") && isType(got[j], "*ndp.PrefixInformation") && piMatch(as(want[i], "*ndp.PrefixInformation"), as(got[j], "*ndp.PrefixInformation")) && piProblem(result[k], as(want[i], "*ndp.PrefixInformation"), as(got[j], "*ndp.PrefixInformation")) && result[k].Details == cidrStrOf(as(want[i], "*ndp.PrefixInformation").Prefix, as(want[i], "*ndp.PrefixInformation").PrefixLength))))
+//@   opt safety [C12]
+//@   opt frame [C12]
+
+//@ macro riMatch(x, y) = x.Prefix == y.Prefix && x.PrefixLength == y.PrefixLength
+//@ macro riProblem(p, x, y) = p.Field == "route_information_lifetime" && x.Preference == y.Preference && x.RouteLifetime != y.RouteLifetime
+//@ func checkRoutes
+//@   requires P1: optsOK(want) && optsOK(got)
+//@   assigns new heap(corerad.problems), new mem(corerad.problem), new mem(*ndp.MTU)
+//@   loop 1 invariant Q0 [C12]: 0 <= rangeindex1 + 1 && rangeindex1 + 1 <= len(riA) && forall(i, 0, len(riA), riA[i] != nil) && forall(j, 0, len(riB), riB[j] != nil)
+//@   loop 1 invariant Q1 [C12]: forall(k, 0, len(ps), exists(i, 0, len(riA), exists(j, 0, len(riB), riMatch(riA[i], riB[j]) && riProblem(ps[k], riA[i], riB[j]) && ps[k].Details == cidrStrOf(riA[i].Prefix, riA[i].PrefixLength))))
+//@   loop 2 invariant Q3 [C12]: 0 <= rangeindex2 + 1 && rangeindex2 + 1 <= len(riB) && rangeindex1 + 1 < len(riA) && a == riA[rangeindex1 + 1]
+//@   loop 2 invariant Q5 [C12]: forall(k, 0, len(ps), exists(i, 0, len(riA), exists(j, 0, len(riB), riMatch(riA[i], riB[j]) && riProblem(ps[k], riA[i], riB[j]) && ps[k].Details == cidrStrOf(riA[i].Prefix, riA[i].PrefixLength))))
+//@   ensures E1 [C12]: countTag(arr(want), len(want), tagOf("*ndp.RouteInformation")) == 0 || countTag(arr(got), len(got), tagOf("*ndp.RouteInformation")) == 0 ==> len(result) == 0
+//@   ensures E2 [C12]: forall(k, 0, len(result), exists(i, 0, len(want), exists(j, 0, len(got), isType(want[i], "*ndp.RouteInformation") && isType(got[j], "*ndp.RouteInformation") && riMatch(as(want[i], "*ndp.RouteInformation"), as(got[j], "*ndp.RouteInformation")) && riProblem(result[k], as(want[i], "*ndp.RouteInformation"), as(got[j], "*ndp.RouteInformation")) && result[k].Details == cidrStrOf(as(want[i], "*ndp.RouteInformation").Prefix, as(want[i], "*ndp.RouteInformation").PrefixLength))))
+//@   opt safety [C12]
+//@   opt frame [C12]
